@@ -15,6 +15,22 @@
  * loop annotation / by memrec_find_var's contract) */
 size_t vg_r, vg_r2, vg_fidx;
 
+#ifdef VERIF_MEMHASH_DIAG_MACROS
+/* The diagnostics of mem.c (D_MEM -> __DEBUG() -> fprintf(..., time(NULL), ...); libast_dprintf(...))
+ * as MACROS instead of env.h's stub functions: every argument is still evaluated (comma expression),
+ * nothing is written, the value is not used by mem.c.  Needed for units in which memrec_find_var is
+ * inlined with its loop contract into another enforced function: goto-instrument 6.11 inlines the
+ * calls of a contract-annotated loop body and aborts ("parameter_assignments: Unreachable") when the
+ * callee was already given DFCC's extra write-set parameter - which depends on the order in which it
+ * happens to visit the functions (seen to flip after an unrelated edit of this header).  With no call
+ * in the loop body the order does not matter. */
+time_t vg_mh_time;
+# define libast_dprintf(...)  ((void) (__VA_ARGS__), 0)
+# define fprintf(...)         ((void) (__VA_ARGS__), 0)
+# define fflush(f)            ((void) (f), 0)
+# define time(t)              ((void) (t), vg_mh_time)
+#endif
+
 /* re-basing of a walking pointer on an index: identity assignment whose identity is an obligation */
 #define VERIF_MH_REBASE(p, e) do { \
     __CPROVER_assert((p) == (e), "rebase: " #p " == " #e); (p) = (e); } while (0)
